@@ -74,11 +74,16 @@ def convert(infile, out_file_name, **options):  # type: (str, str, **str) -> Non
         if options.get('ecus', False):
             ecu_list = options['ecus'].split(',')
             db = canmatrix.CanMatrix()
+            wanted_ecu_names = []  # type: typing.List[str]
             for ecu in ecu_list:
                 direction = None
                 if ":" in ecu:
                     ecu, direction = ecu.split(":")
-                canmatrix.copy.copy_ecu_with_frames(ecu, dbs[name], db, rx=(direction != "tx"), tx=(direction != "rx"))
+                wanted_ecu_names += [wanted_ecu.name for wanted_ecu in dbs[name].glob_ecus(ecu)]
+                canmatrix.copy.copy_ecu_with_frames(ecu, dbs[name], db, rx=(direction != "tx"), tx=(direction != "rx"),
+                                                    direct_ecu_only=False)
+            # only now, with all wanted ECUs known: an ECU selected earlier must not be removed by a later one
+            canmatrix.copy.delete_indirect_ecus(db, wanted_ecu_names)
         if options.get('frames', False):
             frame_list = options['frames'].split(',')
             db = canmatrix.CanMatrix() if db is None else db
